@@ -160,6 +160,28 @@ def judge(case, impl, model, spec, ctx):
         if spec is not None and spec.strip() != "1":
             out.append(("violation", "the client wrote bytes to the SOCKS5 server that are not a sequence of well-formed "
                                      "RFC 1928/1929 (or extended authentication) messages"))
+    if case.kind in ("dialogue", "truncated") and not out:
+        # proceeds only when the server selects an offered method and reports success
+        toks = case.impl.split()
+        ak = untok(toks[1])[0]
+        server = [b for t in toks[5:] for b in untok(t)]
+        res = untok(impl.split()[0])
+        client = untok(impl.split()[1]) if len(impl.split()) > 1 else []
+        offered = {0, {0: 0, 1: 2, 2: 0x80}[ak]}
+        if len(server) >= 2 and server[0] == 5 and server[1] not in offered:
+            if res[0] == 0 or len(client) > 4:
+                out.append(("violation", "the server selected method 0x%02x which was not offered (offered %s) and the client went on "
+                                         "(wrote %d more bytes, outcome %s)" % (server[1], sorted(offered), len(client) - 4, res)))
+        elif res[0] == 0:
+            # a tunnel is reported only after success statuses
+            i = 2
+            ok = len(server) >= 2 and server[0] == 5
+            if ok and server[1] != 0:
+                ok = server[2:4] == [1, 0]
+                i = 4
+            ok = ok and server[i:i + 3] == [5, 0, 0]
+            if not ok:
+                out.append(("violation", "a tunnel was reported established although the server did not report success"))
     if case.kind == "make-auth" and case.meta["r"] >= 4:
         t = impl.split()
         u, p = case.meta["u"], case.meta["p"]
